@@ -120,28 +120,30 @@ PickAlts(sd) ==
 \* x E's rules (incl. rules forging authority / authorizer facts).  AttenSize = "small" keeps exactly
 \* those dimensions complete and trims the others; "large" crosses everything.
 Small == AttenSize = "small"
+Medium == AttenSize = "medium"      \* thorough tier: wider menus of E's rules, the bodies and the policies; one-pass derivations
 ExtRules  ==
     IF Small
     THEN {<<>>, <<R(D(X), <<F(X)>>, {})>>, <<R(F("az"), <<>>, {})>>, <<R(F("b0"), <<>>, {})>>}
     ELSE {<<>>} \cup {<<R(D(X), <<F(X)>>, s)>> : s \in ScopeMenu}
          \cup {<<R(F("b0"), <<>>, {})>>, <<R(F("az"), <<>>, {})>>, <<R(D("b0"), <<>>, {})>>}
 ExtChecks ==
-    IF Small
+    IF Small \/ Medium
     THEN {<<>>, <<Chk("one", <<Q(<<F("bE")>>, {})>>)>>, <<Chk("reject", <<Q(<<F("bE")>>, {})>>)>>, <<Chk("all", <<Q(<<F(X)>>, {})>>)>>}
     ELSE {<<>>} \cup {<<Chk(k, <<Q(<<F(c)>>, s)>>)>> : k \in Kinds, c \in {"b0", "bE", X}, s \in {{}, {"previous"}}}
 AttenQB ==
-    IF Small THEN {<<F(X)>>, <<D(X)>>} ELSE QBodies \cup {<<D("bE")>>, <<F("bE")>>}
+    IF Small THEN {<<F(X)>>, <<D(X)>>} ELSE IF Medium THEN {<<F(X)>>, <<D(X)>>, <<D("bE")>>, <<F("bE")>>, <<F("b0")>>}
+    ELSE QBodies \cup {<<D("bE")>>, <<F("bE")>>}
 AttenKinds == IF Small THEN {"one", "reject"} ELSE Kinds
 AttenPolicies ==
     IF Small
     THEN {AllowTrue, Pol("allow", <<Q(<<D(X)>>, {})>>), Pol("allow", <<Q(<<F("bE")>>, {})>>)}
     ELSE {AllowTrue, Pol("allow", <<Q(<<D(X)>>, {})>>), Pol("allow", <<Q(<<F("bE")>>, {})>>), Pol("deny", <<Q(<<D("bE")>>, {})>>)}
-MinorScopes == IF Small THEN {{}, {"previous"}} ELSE ScopeMenu
+MinorScopes == IF Small \/ Medium THEN {{}, {"previous"}} ELSE ScopeMenu
 
 PickAtten(sd) ==
     \E ee \in Exts, rs \in MinorScopes, co \in Owners(MaxBlocks - 1), k \in AttenKinds, qb \in AttenQB,
        sc \in ({<<s, {}>> : s \in ScopeMenu} \cup {<<{}, s>> : s \in ScopeMenu}),   \* <<check scope, block scope>>
-       er \in ExtRules, ec \in ExtChecks, es \in MinorScopes, pol \in AttenPolicies, chain \in BOOLEAN :
+       er \in ExtRules, ec \in ExtChecks, es \in MinorScopes, pol \in AttenPolicies, chain \in (IF Small THEN BOOLEAN ELSE {FALSE}) :
         /\ (sd.ro = NoOwner) => (rs = {} /\ ~chain)
         /\ (co \in 0..(MaxBlocks-1)) => co < sd.n
         /\ prog' = SkeletonR(sd.n, <<sd.e1, "none">>, sd.ro, IF chain THEN ChainRules(rs) ELSE <<DeriveRule(rs)>>,
